@@ -268,6 +268,36 @@ def scn_assign(params):
                         out["violations"].append(("C18:lookup:live-session-not-found", "a packet for %s arriving %d s after its session last spoke was not queued for it" % (X.tun_ip, late), dict(wit, late=late)))
                     else:
                         out["nontrivial"].append(repr(("lookup-at-boundary", late)))
+        if not out["violations"] and params.get("busy") and srv.alive():
+            # A session whose login got through late: version handshake at t, login answered at t+35..50 s (lost and repeated login
+            # queries), then the rest of the client's start-up, which involves no ping.  At t+62..75 s - the login is less than
+            # 40 s old - a packet for the address it was told finds that session.
+            k.run(k.now + 61 * 1000000)          # (whoever was there before has expired: a slot is free)
+            Y = mk(900 + params["idx"] % 50)
+            pl = Y.version()
+            if pl and pl[:4] == b"VACK":
+                tv = k.now
+                k.run(tv + rng.choice([35, 42, 50]) * 1000000)
+                r = Y.login()
+                if Y.login_reply is not None:
+                    try:
+                        Y.tun_ip = r.split(b"-")[1].decode()
+                    except (IndexError, UnicodeDecodeError):
+                        Y.tun_ip = None
+                if Y.login_reply is not None and Y.tun_ip:
+                    k.run(tv + rng.choice([62, 66, 75]) * 1000000)
+                    fr = proto.make_frame(sip, Y.tun_ip, (0xC18E << 20) | params["idx"], 60, "random", rng)
+                    k.offer_tun("srv", fr, None)
+                    k.run(k.now + 2000)
+                    Y.pump(200000, 20000)
+                    out["stats"]["assign_lookups_after_a_late_login"] = out["stats"].get("assign_lookups_after_a_late_login", 0) + 1
+                    out["evaluations"] += 1
+                    if not any(x == fr for _t, x in Y.delivered):
+                        out["violations"].append(("C18:lookup:session-with-late-login-not-found",
+                                                  "a packet for %s, told to a session %d s ago in its login reply (version handshake %d s ago), did not reach that session"
+                                                  % (Y.tun_ip, (k.now - tv) // 1000000 - 40, (k.now - tv) // 1000000), dict(wit)))
+                    else:
+                        out["nontrivial"].append(repr(("lookup-after-late-login",)))
         if params["idx"] < 2:
             out["sample"] = {"engine": "A", "tun": params["tun"], "sessions": len(mcs), "told": sorted(told)[:4]}
         return out
